@@ -226,6 +226,17 @@ func All() []Op {
 		}},
 		// a configured directory appears (a query then registers its watch and clears its error
 		// entry) and disappears again (the watcher goroutine records the removal)
+		// the same directory replaced the usual way: renamed aside and the moved directory deleted at once
+		// (the watcher goroutine gets the rename event of a directory whose watch is gone already)
+		{"Mkdir(d2)+ListDevices+MoveAside(d2)+Delete", false, func(w *World, c *cdi.Cache) Result {
+			_ = MkdirFn(w.D2, 0o755)
+			n := len(c.ListDevices())
+			moved := filepath.Join(w.Root, "outside", "d2-moved-aside")
+			_ = RenameFn(w.D2, moved)
+			_ = RemoveFn(moved)
+			_ = c.ListDevices()
+			return Result{Op: "Mkdir(d2)+ListDevices+MoveAside(d2)+Delete", Obs: fmt.Sprint(n > 0)}
+		}},
 		{"Mkdir(d2)+ListDevices+Rmdir(d2)", false, func(w *World, c *cdi.Cache) Result {
 			_ = MkdirFn(w.D2, 0o755)
 			n := len(c.ListDevices())
